@@ -26,7 +26,8 @@ const (
 	kUnknown     = 3 // sample of an unknown format: skipped by its length
 	kVendor      = 4 // sample with a non-zero enterprise number: skipped by its length
 	kCounterUnk  = 5 // counter sample: one unknown or vendor-specific record (skipped) then VLAN counters
-	nKinds       = 6
+	kFlowRouter  = 6 // flow sample: one extended router record (IPv4 next hop): its address is a byte slice
+	nKinds       = 7
 )
 
 type verifSample struct {
@@ -43,17 +44,29 @@ type verifSample struct {
 	urFormat       uint32
 }
 
+// the octets of a part the decoder has to skip by its declared length: 0, 4, 8 (param ubodies:
+// how many of these) or, with bigbody, 1504 octets — longer than any fixed-size structure of the
+// protocol and than the default maximum datagram size of the collector
+func verifSkipBody() []byte {
+	n := verifParam("ubodies", 3)
+	c := verifCase(n + verifParam("bigbody", 1))
+	if c == n {
+		return verifNondetBytes(1504)
+	}
+	return verifNondetBytes(4 * c)
+}
+
 func verifArbSample(kind int) verifSample {
 	s := verifSample{kind: kind, seq: verifNondetU32(), srcType: verifNondetU8()}
 	s.srcIdx = [3]uint8{verifNondetU8(), verifNondetU8(), verifNondetU8()}
 	switch kind {
-	case kFlowSwitch, kFlowUnkRec:
+	case kFlowSwitch, kFlowUnkRec, kFlowRouter:
 		s.rate, s.pool, s.drops, s.in, s.out = verifNondetU32(), verifNondetU32(), verifNondetU32(), verifNondetU32(), verifNondetU32()
 		s.sw = [4]uint32{verifNondetU32(), verifNondetU32(), verifNondetU32(), verifNondetU32()}
 		if kind == kFlowUnkRec {
 			s.urFormat = verifNondetU32()
 			verifAssume(verifAll(s.urFormat != SFDataRawHeader, s.urFormat != SFDataExtSwitch, s.urFormat != SFDataExtRouter))
-			s.body = verifNondetBytes(4 * verifCase(verifParam("ubodies", 3)))
+			s.body = verifSkipBody()
 		}
 	case kCounterVlan, kCounterUnk:
 		s.vlan = VlanCounters{verifNondetU32(), verifNondetU64(), verifNondetU32(), verifNondetU32(), verifNondetU32(), verifNondetU32()}
@@ -63,23 +76,23 @@ func verifArbSample(kind int) verifSample {
 			s.urFormat = verifNondetU32()
 			verifAssume(verifAll(s.urFormat != SFGenericInterfaceCounters, s.urFormat != SFEthernetInterfaceCounters, s.urFormat != SFTokenRingInterfaceCounters,
 				s.urFormat != SF100BaseVGInterfaceCounters, s.urFormat != SFVLANCounters, s.urFormat != SFProcessorCounters))
-			s.body = verifNondetBytes(4 * verifCase(verifParam("ubodies", 3)))
+			s.body = verifSkipBody()
 		}
 	case kUnknown:
 		s.format = verifNondetU32()
 		verifAssume(verifAll(s.format>>12 == 0, s.format != DataFlowSample, s.format != DataCounterSample))
-		s.body = verifNondetBytes(4 * verifCase(verifParam("ubodies", 3)))
+		s.body = verifSkipBody()
 	case kVendor:
 		s.format = verifNondetU32()
 		verifAssume(s.format>>12 != 0)
-		s.body = verifNondetBytes(4 * verifCase(verifParam("ubodies", 3)))
+		s.body = verifSkipBody()
 	}
 	return s
 }
 
 func (s verifSample) typeWord() uint32 {
 	switch s.kind {
-	case kFlowSwitch, kFlowUnkRec:
+	case kFlowSwitch, kFlowUnkRec, kFlowRouter:
 		return DataFlowSample
 	case kCounterVlan, kCounterUnk:
 		return DataCounterSample
@@ -89,7 +102,7 @@ func (s verifSample) typeWord() uint32 {
 
 func (s verifSample) bodyLen() int {
 	switch s.kind {
-	case kFlowSwitch:
+	case kFlowSwitch, kFlowRouter:
 		return 32 + 8 + 16
 	case kFlowUnkRec:
 		return 32 + 8 + len(s.body) + 8 + 16
@@ -105,7 +118,7 @@ func (s verifSample) write(w *verifW) {
 	w.u32(s.typeWord())
 	w.u32(uint32(s.bodyLen()))
 	switch s.kind {
-	case kFlowSwitch, kFlowUnkRec:
+	case kFlowSwitch, kFlowUnkRec, kFlowRouter:
 		w.u32(s.seq)
 		w.u8(s.srcType)
 		w.u8(s.srcIdx[0])
@@ -120,16 +133,24 @@ func (s verifSample) write(w *verifW) {
 			w.u32(2)
 			w.u32(s.urFormat)
 			w.u32(uint32(len(s.body)))
-			for i := range s.body {
-				w.u8(s.body[i])
-			}
+			copy(w.b[w.o:], s.body)
+			w.o += len(s.body)
 		} else {
 			w.u32(1)
 		}
-		w.u32(SFDataExtSwitch)
-		w.u32(16)
-		for i := 0; i < 4; i++ {
-			w.u32(s.sw[i])
+		if s.kind == kFlowRouter {
+			w.u32(SFDataExtRouter)
+			w.u32(16)
+			w.u32(1) // next hop address type: IPv4
+			w.u32(s.sw[1])
+			w.u32(s.sw[2])
+			w.u32(s.sw[3])
+		} else {
+			w.u32(SFDataExtSwitch)
+			w.u32(16)
+			for i := 0; i < 4; i++ {
+				w.u32(s.sw[i])
+			}
 		}
 	case kCounterVlan, kCounterUnk:
 		w.u32(s.seq)
@@ -141,9 +162,8 @@ func (s verifSample) write(w *verifW) {
 			w.u32(2)
 			w.u32(s.urFormat)
 			w.u32(uint32(len(s.body)))
-			for i := range s.body {
-				w.u8(s.body[i])
-			}
+			copy(w.b[w.o:], s.body)
+			w.o += len(s.body)
 		} else {
 			w.u32(1)
 		}
@@ -156,9 +176,8 @@ func (s verifSample) write(w *verifW) {
 		w.u32(s.vlan.BroadcastPackets)
 		w.u32(s.vlan.Discards)
 	default:
-		for i := range s.body {
-			w.u8(s.body[i])
-		}
+		copy(w.b[w.o:], s.body)
+		w.o += len(s.body)
 	}
 }
 
@@ -172,6 +191,16 @@ func verifCheckFlow(x Sample, s verifSample) {
 	}
 	verifAssert(fs.RecordsNo == want, "flow sample: number of records")
 	verifAssert(len(fs.Records) == 1, "flow sample: only supported records are kept")
+	if s.kind == kFlowRouter {
+		// checked after the WHOLE datagram has been decoded: the address must still be this
+		// sample's (it is a byte slice: it must not share memory with a later record's)
+		er, okr := fs.Records["ExtRouter"].(*ExtRouterData)
+		verifAssert(okr, "flow sample: extended router record present")
+		verifAssert(len(er.NextHop) == 4, "flow sample: extended router next hop length")
+		nh := uint32(verifAt(er.NextHop, 0))<<24 | uint32(verifAt(er.NextHop, 1))<<16 | uint32(verifAt(er.NextHop, 2))<<8 | uint32(verifAt(er.NextHop, 3))
+		verifAssert(verifAll(nh == s.sw[1], er.SrcMask == s.sw[2], er.DstMask == s.sw[3]), "flow sample: extended router next hop and masks (still this sample's after the rest of the datagram was decoded)")
+		return
+	}
 	r, ok2 := fs.Records["ExtSwitch"].(*ExtSwitchData)
 	verifAssert(ok2, "flow sample: extended switch record present")
 	verifAssert(verifAll(r.SrcVlan == s.sw[0], r.SrcPriority == s.sw[1], r.DstVlan == s.sw[2], r.DstPriority == s.sw[3]), "flow sample: extended switch fields (an unknown record before it is skipped by its length)")
@@ -247,7 +276,7 @@ func verifExpect(d *SFDatagram, ss []verifSample, filtered func(verifSample) boo
 			continue
 		}
 		switch s.kind {
-		case kFlowSwitch, kFlowUnkRec:
+		case kFlowSwitch, kFlowUnkRec, kFlowRouter:
 			verifAssert(fi < len(d.Samples), "every flow sample is returned")
 			verifCheckFlow(d.Samples[fi], s)
 			fi++
@@ -260,7 +289,7 @@ func verifExpect(d *SFDatagram, ss []verifSample, filtered func(verifSample) boo
 	verifAssert(verifAll(fi == len(d.Samples), ci == len(d.Counters)), "nothing else is returned")
 }
 
-// two samples: their kinds are the split (36 combinations); further samples (param) fork
+// two samples: their kinds are the split (49 combinations); further samples (param) fork
 func verifSamples() []verifSample {
 	n := verifParam("samples", 2)
 	sp := verifSplit(nKinds * nKinds)
